@@ -52,7 +52,7 @@ struct SimFile {
     n_read++;
     size_t want = size * nmemb;
     int f = fault_now(true, false, false);
-    if (f == IOF_EIO) { n_injected++; g_stats.inc("fault.io.EIO"); errno = EIO; log.u64(0xE10); return 0; }
+    if (f == IOF_EIO) { n_injected++; g_stats.inc("fault.io.EIO"); errno = EIO; log.u64(0xE10); { static const bool trace = getenv("VERIF_TRACE_IO") != nullptr; if (trace) fprintf(stderr, "IO read want=%zu -> injected EIO at pos %lld\n", want, (long long)pos); } return 0; }
     if (f == IOF_EOF0) { n_injected++; g_stats.inc("fault.io.EOF0"); errno = 0; log.u64(0xE0F); return 0; }
     size_t avail = (size_t)std::max<int64_t>(0, (int64_t)bytes->size() - pos);
     size_t n = std::min(want, avail);
